@@ -890,6 +890,12 @@ func (a *Agent) gatherCandidatesSrflx(ctx context.Context, urls []*stun.URI, net
 		go func() {
 			select {
 			case <-cancelCtx.Done():
+				// Gathering was canceled (Restart or Close) while the STUN exchange
+				// is still pending: abort it instead of waiting for the timeout.
+				if ctx.Err() != nil {
+					_ = conn.Close()
+				}
+
 				return
 			case <-a.loop.Done():
 				_ = conn.Close()
